@@ -1,13 +1,13 @@
 SPECIFICATION Spec
 CONSTANTS MaxRound = 3
- MaxSize = 9
+ MaxSize = 32
  MaxHyps = 2
  N = 2
- EmitRejected = FALSE
- Focus = FALSE
+ EmitRejected = TRUE
+ Focus = TRUE
 INVARIANT AllWellTyped
 
 INVARIANT AllValid
 INVARIANT NoFalse
-INVARIANT NonVacuous
+
 CHECK_DEADLOCK FALSE
